@@ -156,6 +156,12 @@ def run(chk, prog):
     chk.check(ws is not None and sp.simplify(ws - sp.Symbol("wakescalining", real=True) / sp.Symbol("_nmax", real=True)) == 0, "R4", c8.where,
               "_wakescaling = wakescalining/_nmax (1/N of the unnormalised transform pair): %s" % ws, "ctor:_wakescaling:%s" % ws)
     chk.check(str(nm_) == "nFreqs(impedance)", "R4", c8.where, "_nmax is the number of impedance samples (%s)" % nm_, "ctor:_nmax:%s" % nm_)
+    # "places every bunch at bucket_number*spacing": the spacing and the bucket numbers the placement uses are the ones the field was given
+    for fld_, par_ in (("_spacing_bins", "spacing_bins"), ("_bucket", "bucketnumber")):
+        v_ = ini.get(fld_)
+        A.require(any(p_["name"] == par_ for p_ in c8["params"]), "ElectricField constructor: parameter %s not found" % par_)
+        chk.check(v_ is not None and sp.simplify(v_ - sp.Symbol(par_, real=True)) == 0, "R7", c8.where,
+                  "%s is the constructor argument %s, unchanged (%s)" % (fld_, par_, v_), "ctor-argument-stored:%s:%s" % (fld_, v_))
     c11 = [c for c in m.setup if c["kind"] == "ctor" and len(c["params"]) == 11][0]
     dl = [i for i in c11["inits"] if i.get("ikind") == "delegating"]
     A.require(len(dl) == 1, "ElectricField: delegating initialiser not found")
